@@ -884,7 +884,7 @@ def check_writers(ctx, fb):
             n += 1
             ctx.check(name in allowed, "R06-7", "%s writer %s@%s" % (field, path.split("::")[-1], it.file.split("/")[-1]), "one of %s" % sorted(allowed),
                       "%s stores into `%s` but is not one of the operations whose effect on it is specified (%s)" % (path, field, sorted(allowed)), loc(it))
-    ctx.floor("state-writers", n, 10)
+    ctx.floor("state-writers", n, 6)
 
 
 def run(ctx):
